@@ -327,7 +327,9 @@ Section Varint.
         * rewrite !skipn_all2 by lia. reflexivity.
       + rewrite app_length in Hst. unfold q. rewrite lenN_spec. lia.
     - (* the varint is cut by the end of the head buffer *)
-      rewrite firstn_app. replace (j - length vb)%nat with 0%nat by lia. simpl firstn at 2. rewrite app_nil_r.
+      assert (Efj : firstn j (vb ++ P) = firstn j vb).
+      { rewrite firstn_app. replace (j - length vb)%nat with 0%nat by lia. rewrite firstn_O. apply app_nil_r. }
+      rewrite Efj.
       rewrite (vb_cut j Hj).
       destruct stream as [st|]; [|rewrite app_length in Hst; lia].
       set (cap := if (max_varint_len <=? length (head ++ firstn j vb))%nat then length (head ++ firstn j vb) else max_varint_len).
@@ -358,3 +360,136 @@ Section Varint.
       + rewrite !skipn_all2 by lia. reflexivity.
   Qed.
 End Varint.
+
+Lemma spec_zero mode a b len off ln :
+  range_spec mode a b len = SpOk off ln -> ln = 0 -> off = 0 /\ len = 0.
+Proof.
+  unfold range_spec.
+  destruct (mode =? mode_none); [intros [= <- <-]; lia|].
+  destruct (mode =? mode_offlen).
+  { destruct (N.eqb_spec b 0).
+    - destruct (a =? 0); [intros [= <- <-]; lia|discriminate].
+    - destruct (a + b <=? len); [intros [= <- <-]; lia|discriminate]. }
+  destruct (mode =? mode_bounds).
+  { destruct (N.leb_spec a b); simpl; [|discriminate].
+    destruct (N.ltb_spec a len); simpl; [|discriminate]. intros [= <- <-]. lia. }
+  destruct (mode =? mode_from).
+  { destruct (N.ltb_spec a len); [|discriminate]. intros [= <- <-]. lia. }
+  destruct (mode =? mode_suffix).
+  { destruct (N.eqb_spec a 0); [discriminate|]. intros [= <- <-]. lia. }
+  discriminate.
+Qed.
+
+Section Streams.
+  Variable vb : bytes.
+  Variable v : N.
+  Hypothesis vb_parses : forall r, parse_varint (vb ++ r) = VOk v (length vb).
+  Hypothesis vb_cut : forall k, (k < length vb)%nat -> parse_varint (firstn k vb) = VErr VTrunc.
+  Hypothesis vb_len : (length vb <= max_varint_len)%nat.
+
+  (* The object binary is head ++ vb ++ P: head = non-payload fields and the payload field
+     tag (tag at offset o, tagln bytes), vb = payload length varint, P = payload. The head
+     buffer holds head and the first j bytes of vb ++ P; the two scans of the head buffer
+     found the announced payload length |P| and the payload tag. *)
+  Theorem stream_bytes head P j stream mode a b o tagln hdr :
+    (match stream with
+     | None => (length (vb ++ P) <= j)%nat
+     | Some st => shape st (skipn j (vb ++ P))
+     end) ->
+    length head = (o + tagln)%nat ->
+    lenN P <= max_int64 -> a < two64 -> b < two64 ->
+    let res := range_with (PlOk (lenN P) hdr) (SFound o tagln ty_bytes) (head ++ firstn j (vb ++ P)) stream mode a b in
+    match range_spec mode a b (lenN P) with
+    | SpOk off ln => exists r, res = ShOk r /\ drain r = firstnN ln (skipnN off P)
+    | SpUnsat => res = ShErr EOutOfRange
+    | SpBadMode => res = ShErr EOther
+    end.
+  Proof.
+    intros Hst Hh Hbig Ha Hb res. subst res. unfold range_with, shift_with. simpl negb. cbv iota.
+    assert (Hl : lenN P < two64) by (unfold max_int64, two64 in *; lia).
+    pose proof (resolve_spec mode a b (lenN P) Ha Hb Hl) as Hr.
+    destruct (range_spec mode a b (lenN P)) as [off ln| |] eqn:Es.
+    - destruct Hr as [-> Hle]. rewrite <- Hh.
+      apply (shift_prs_ok vb v vb_parses vb_cut vb_len); try assumption.
+      intros Hz. now apply (spec_zero _ _ _ _ _ _ Es).
+    - now rewrite Hr.
+    - now rewrite Hr.
+  Qed.
+End Streams.
+
+(* object without a payload field *)
+Theorem stream_bytes_nopayload prefix stream mode a b hdr : a < two64 -> b < two64 ->
+  let res := range_with (PlOk 0 hdr) SMissing prefix stream mode a b in
+  match range_spec mode a b 0 with
+  | SpOk off ln => exists r, res = ShOk r /\ drain r = firstnN ln (skipnN off [])
+  | SpUnsat => res = ShErr EOutOfRange
+  | SpBadMode => res = ShErr EOther
+  end.
+Proof.
+  intros Ha Hb res. subst res. unfold range_with, shift_with.
+  assert (Hl : 0 < two64) by (unfold two64; lia).
+  pose proof (resolve_spec mode a b 0 Ha Hb Hl) as Hr.
+  destruct (range_spec mode a b 0) as [off ln| |].
+  - destruct Hr as [-> Hle]. exists RNop. split; [reflexivity|]. simpl. now destruct ln.
+  - now rewrite Hr.
+  - now rewrite Hr.
+Qed.
+
+(* the head / stream pairs of the three storage formats have the required shape *)
+
+(* plain file: the stream is the file positioned after the head buffer *)
+Lemma plain_shape obj k : shape (RFile (skipn k obj)) (skipn k obj).
+Proof. constructor. Qed.
+
+(* combined file: the stream is limited to the rest of this object's record *)
+Lemma combined_shape rest foreign : shape (RLim (RFile (rest ++ foreign)) (Z.of_N (lenN rest))) rest.
+Proof. constructor. Qed.
+
+Section Compressed.
+  (* zstd is outside the model: [dec] inverts whatever produced the stored bytes Z *)
+  Variable dec : bytes -> option bytes.
+  Variable Z obj : bytes.
+  Hypothesis dec_inverts : dec Z = Some obj.
+
+  Lemma compressed_head chunk stream :
+    (npfbl <= length (firstn npfbl Z))%nat ->
+    is_compressed (firstn npfbl Z) = true ->
+    drain stream = skipn npfbl Z ->
+    exists k, preprocess dec chunk (firstn npfbl Z) stream =
+              OOk (firstn k obj) (Some (RFile (skipn k obj))) /\ shape (RFile (skipn k obj)) (skipn k obj).
+  Proof.
+    intros Hlen Hc Hd. unfold preprocess.
+    destruct (Nat.ltb_spec (length (firstn npfbl Z)) npfbl); [lia|].
+    rewrite Hc, Hd, firstn_skipn, dec_inverts.
+    eexists; split; [reflexivity|constructor].
+  Qed.
+End Compressed.
+
+(* ---- layers ------------------------------------------------------------------------ *)
+From NV Require Import FSTree.Layers.
+
+Definition found (r : shres) : Prop := r <> ShErr ENotFound.
+Definition final_in_cache (r : shres) : Prop :=
+  match r with ShOk _ | ShErr EOutOfRange => True | _ => False end.
+
+(* an object held by the write-cache's tree: cache and shard give the tree's answer
+   whenever that answer is a success or out-of-range; an object held only by the blob
+   storage: the shard gives the blob storage's answer *)
+Theorem layers_agree_cache tree blob : final_in_cache tree ->
+  wc_range true tree = tree /\ shard_range (Some (wc_range true tree)) blob = tree.
+Proof. intros H. split; [reflexivity|]. simpl. destruct tree as [r|[]|]; simpl in *; tauto. Qed.
+
+Theorem layers_agree_blob blob (wc_has_cache : bool) :
+  shard_range (if wc_has_cache then Some (wc_range false (ShErr EOther)) else None) blob = blob.
+Proof. destruct wc_has_cache; reflexivity. Qed.
+
+(* engine: with every other shard answering "not found" the engine gives the holding
+   shard's answer *)
+Theorem layers_agree_engine before after r :
+  Forall (fun x => x = ShErr ENotFound) before -> found r ->
+  engine_range (before ++ r :: after) = r.
+Proof.
+  intros Hb Hr. induction Hb as [|x l Hx _ IH]; simpl.
+  - destruct r as [rd|[]|]; try reflexivity. now destruct Hr.
+  - subst x. exact IH.
+Qed.
